@@ -21,13 +21,14 @@ ASSUMPTIONS = ['ground truth = the scripted element lists (what C01 establishes 
                'a plain observable may be drained into the adapter\'s buffer before credit arrives; only wire emission is '
                'held to the credit ledger']
 DECIDING_REQUIRED = ('observer_logs_compared', 'credit_windows_checked', 'feedback_sequences_compared', 'disposals_checked',
-                     'delegate_calls_checked')
+                     'delegate_calls_checked', 'refused_requests_checked')
 BUDGET_S = {'quick': 100, 'thorough': 1800}
 MAXN = 0x7FFFFFFF
 
 
 def plan(tier, seed):
-    return [('streams', 6000 if tier == 'quick' else 60000), ('single', 1000 if tier == 'quick' else 8000)]
+    return [('streams', 6000 if tier == 'quick' else 60000), ('single', 1000 if tier == 'quick' else 8000),
+            ('refused', 60 if tier == 'quick' else 400)]
 
 
 def _mods(version):
@@ -618,10 +619,86 @@ def _finished(world, side):
                for e in world.events)
 
 
+async def _refused(rng, d):
+    """A request the core API refuses synchronously (lease-honouring client whose one-slot request queue is taken):
+    through the Rx clients the refusal must arrive as on_error of that observable, and the request that holds the
+    slot must still be served when the lease comes."""
+    from rsocket.rsocket_client import RSocketClient
+    from rsocket.rsocket_server import RSocketServer
+    from .. import links
+    from ..apps import World, ScriptedHandler, make_payload, DIR_REQUEST
+    from ..pair import Driver
+    from .c14 import ScriptedLeasePublisher
+    R, ops, Subject, Client, Base, factory, Chan, bp = _mods(d['version'])
+    world = World()
+    driver = Driver(world, 1.0e5)
+    link = links.make_link(d['link'], rng, None, None)
+    link.tap.listeners.append(world.on_wire)
+    hs = ScriptedHandler(world, 's', driver)
+    server = RSocketServer(link.transports['s'], handler_factory=lambda: hs,
+                           lease_publisher=ScriptedLeasePublisher([(d['lease_after'], 100, 60000)]))
+
+    async def provider():
+        yield link.transports['c']
+
+    core = RSocketClient(provider(), keep_alive_period=timedelta(seconds=1e6), max_lifetime_period=timedelta(seconds=2e6),
+                         honor_lease=True, request_queue_size=1)
+    await core.connect()
+    cl = Client(core)
+    logs = []
+    for iid in (1, 2):
+        world.specs[iid] = {'iid': iid, 'model': d['model'], 'side': 'c',
+                            'resp': {'elems': [(5, 0), (6, 0)], 'terminal': 'complete', 'pacing': ('tick',), 'source': 'rec',
+                                     'size': (5, 0), 'outcome': 'ok'}, 'up': None}
+        world.inter[iid] = {}
+        ol = ObsLog(world, 'observer-%d' % iid)
+        logs.append(ol)
+        req = make_payload(iid, DIR_REQUEST, 0, 16, 0)
+        try:
+            o = cl.request_stream(req, request_limit=5) if d['model'] == 'stream' else cl.request_response(req)
+            ol.subscription = o.subscribe(on_next=ol.on_next, on_error=ol.on_error, on_completed=ol.on_completed)
+        except Exception as e:
+            # refused at the call itself, exactly like the core API: as good as on_error
+            ol.log.append('call-raised')
+            world.log('obs', who=ol.who, ev='call-raised', err=repr(e)[:60])
+        await asyncio.sleep(d['gap'])
+    await asyncio.sleep(d['lease_after'] + 5.0)
+    frozen = [list(x.log) for x in logs]
+    await core.close()
+    await server.close()
+    link.stop()
+    return frozen, world
+
+
+def run_refused(idx, rng):
+    from .. import vloop
+    from ..runner import short_hash
+    from ..pair import trace_excerpt
+    d = {'version': rng.choice(['rx3', 'rx4']), 'link': rng.choice(['bytes', 'messages']),
+         'model': rng.choice(['stream', 'stream', 'rr']), 'gap': rng.choice([0.0, 0.01, 0.2]),
+         'lease_after': rng.choice([1.0, 3.0])}
+    logs, world = vloop.run(_refused(rng, d))
+    wit = []
+    want_first = ['on_next', 'on_next', 'on_completed'] if d['model'] == 'stream' else ['on_next', 'on_completed']
+    st = {'observer_logs_compared': 2, 'credit_windows_checked': 0, 'feedback_sequences_compared': 0, 'disposals_checked': 0,
+          'delegate_calls_checked': 0, 'refused_requests_checked': 1}
+    if logs[1] not in (['on_error'], ['call-raised']):
+        wit.append({'clause': 'refused-request-not-reported-as-on_error',
+                    'detail': {'scenario': d, 'observer_of_refused_request': logs[1], 'trace': trace_excerpt(world, 60)[-40:]}})
+    if logs[0] != want_first:
+        wit.append({'clause': 'queued-request-not-served-after-the-lease',
+                    'detail': {'scenario': d, 'observer_of_queued_request': logs[0], 'expected': want_first,
+                               'trace': trace_excerpt(world, 60)[-40:]}})
+    return {'evals': 1, 'nt_keys': [short_hash(d)], 'deciding': st, 'witnesses': wit, 'sigs': [world.signature()],
+            'counts': {'refused_runs': 1}, 'sample': d}
+
+
 def run_case(gen, idx, rng, tier):
     assert_repo()
     from .. import vloop
     from ..runner import short_hash
+    if gen == 'refused':
+        return run_refused(idx, rng)
     d = gen_scenario(rng, single=(gen == 'single'))
     res = vloop.run(_scenario(rng, d))
     wit, st = judge(d, res)
